@@ -3,6 +3,7 @@ module verif/harness
 go 1.24.0
 
 require (
+	github.com/Masterminds/semver/v3 v3.3.0
 	github.com/evanphx/json-patch v5.9.11+incompatible
 	helm.sh/helm/v4 v4.0.0
 	k8s.io/api v0.32.3
@@ -18,7 +19,6 @@ require (
 	github.com/BurntSushi/toml v1.5.0 // indirect
 	github.com/MakeNowJust/heredoc v1.0.0 // indirect
 	github.com/Masterminds/goutils v1.1.1 // indirect
-	github.com/Masterminds/semver/v3 v3.3.0 // indirect
 	github.com/Masterminds/sprig/v3 v3.3.0 // indirect
 	github.com/Masterminds/squirrel v1.5.4 // indirect
 	github.com/asaskevich/govalidator v0.0.0-20230301143203-a9d515a09cc2 // indirect
